@@ -206,6 +206,13 @@ pub fn lanes_for(prop: &str, tier: &str, seed: u64) -> Vec<Scenario> {
             v.extend(gen_cli::lane_fs_faults(seed));
             v.extend(gen_cli::lane_closed_output(seed));
             v.extend(gen_cli::lane_duo(seed, if thorough { 2_000 } else { 240 }));
+            // a limit that expires while output is flowing: the shell scrut stops listening to must
+            // not come back later and re-create what was cleaned up
+            v.extend(gen_cli::lane_flood(seed).into_iter().filter(|s| s.tier == Tier::Cli).map(|mut s| {
+                s.lane = format!("env-{}", s.lane);
+                s.check = vec!["C18".into()];
+                s
+            }));
             v.extend(gen_cli::lane_cli_fates(seed, if thorough { 1 } else { 6 }));
             v.extend(gen_cli::lane_random(Tier::Cli, seed, n_rand_cli * 2, "C18"));
         }
